@@ -411,6 +411,10 @@ def run_sorting(spec, ctx):
             lit = "[%s]" % ", ".join(gv.to_source(p, r) for p in pairs)
             if form == 1:
                 src = "sorted(%s, key = fn(p) p[0])" % lit
+            elif r.random() < 0.4:
+                # both: the comparison function is handed the key values
+                src = r.choice(["sorted(%s, cmp = compare, key = fn(p) p[0])", "sorted(%s, key = fn(p) p[0], cmp = fn(a, b) compare(a, b))", "sorted(%s, fn(a, b) compare(a, b), fn(p) p[0])"]) % lit
+                ctx.count("sorted_with_cmp_and_key")
             else:
                 src = "sorted(%s, cmp = fn(a, b) compare(a[0], b[0]))" % lit
             o = ev(src)
